@@ -92,13 +92,9 @@ func VerifC12Exchange() {
 				best = bb
 			}
 			verifAssert("converged-A", okAA && aa == best)
-			// Corner of the protocol (not of this harness): a peer that lacks a member asks for it with a zero
-			// heartbeat placeholder, and the initiator only answers when its record is strictly more advanced than
-			// the placeholder; a record still at heartbeat (0,0) therefore travels peer->initiator only. The
-			// reverse exchange delivers it (VerifC12BothDirections).
-			if !(okBA && !okBB && ba.Heartbeat == (version.Heartbeat{})) {
-				verifAssert("converged-B", okAB && ab == best)
-			}
+			// (a record still at its zero heartbeat that the peer lacks must travel too: the peer asks for it
+			// with a zero-heartbeat placeholder, which the record can only match, not beat)
+			verifAssert("converged-B", okAB && ab == best)
 		} else {
 			verifAssert("no-invention", !okAA && !okAB)
 		}
